@@ -35,6 +35,8 @@ ATTR_SETS_ACTIONS = [
     [('t', '{e}')],
     [('id', '"i"'), ('class', '"a b c"')],
     [('a', None), ('class', "'k'")],
+    [('class', '"r\tc"')],                  # class tokens separated by a tab / by line breaks only
+    [('class', '"\nx\n\ty\n"'), ('d', 'e')],
 ]
 
 BODY = {
